@@ -26,6 +26,7 @@ Section TieCoupling.
     intros H. unfold prob_right, prob_right_at, denom. cbv zeta.
     destruct (Qeq_bool _ 0); [reflexivity|]. f_equal.
     unfold GenTieCoupling.probability_to_right_jump. cbv zeta.
+    rewrite !gen_getitem_c1d_eq_nth, gen_left_point_c1d_eq_int, gen_right_point_c1d_eq_int.   (* wave 8: the dispatched variants *)
     rewrite (position_Z o inc H). rewrite gen_left_point_eq_model, gen_right_point_eq_model, py_nth_nat.
     reflexivity.
   Qed.
@@ -38,9 +39,10 @@ Section TieCoupling.
   Proof.
     intros H. unfold Coupling1d.coupling_state, GenTieCoupling.coupling_state. cbv zeta.
     destruct (Z.eqb (inc mod 2) 0); simpl negb; cbv iota.
-    - rewrite (position_Z o inc H), py_nth_nat. reflexivity.
+    - rewrite gen_getitem_c1d_eq_nth, (position_Z o inc H), py_nth_nat. reflexivity.
     - pose proof (gen_probability_to_right_jump_eq_model xs o inc H) as P. unfold prob_right in P. rewrite P.
       destruct (Qeq_bool (denom xs (position o inc)) 0); [reflexivity|]. f_equal.
+      rewrite gen_left_point_c1d_eq_int, gen_right_point_c1d_eq_int.
       rewrite (position_Z o inc H), gen_left_point_eq_model, gen_right_point_eq_model. reflexivity.
   Qed.
 End TieCoupling.
